@@ -13,10 +13,12 @@ opaque (`ContentSem`): `compact_content_guarded` says what the rebuild-compare g
 content semantics; that the guard's comparison is meaningful for real documents is the `compact`
 engine's cdoc oracle (real clients, real documents).
 
-What is FALSE on the pinned tree and therefore not claimed: "a stale PushPull is answered
-ErrEpochMismatch" for PUSH-ONLY syncs – `preparePack` returns before its epoch comparison
-(`stale_pushonly_witness`, finding F-C10-stale-pushonly-not-refused).  The no-row half
-(`stale_push_no_rows`) holds for push-only syncs too.
+Switch `Server.stalePushOnlyRefused` (Model/Server.lean).  Before `fix-c10-stale-pushonly-epoch.patch`
+"a stale PushPull is answered ErrEpochMismatch" was FALSE for PUSH-ONLY syncs – `preparePack` returned
+before its epoch comparison (`stale_pushonly_witness`, finding F-C10-stale-pushonly-not-refused, now
+fixed).  With the repair the full statement holds (`stale_push_refused`, `stale_pushonly_fixed_witness`);
+`stale_push_refused_partial` is the part that holds for both values of the switch.  The no-row half
+(`stale_push_no_rows`) holds for push-only syncs under both values too.
 -/
 import YorkieModel.Lemmas.ServerCompactDelivery
 namespace Yorkie.Props.C10
@@ -120,11 +122,56 @@ theorem stale_push_no_rows (s : Server) (c : ClientId) (d : DocId) (pack : Pack)
       (by simpa using hd) (by simpa using he)
     exact ⟨⟨doc', by simpa using h1, h2, h3, h4⟩, fun d' hne => by simpa using h5 d' (by simpa using hne)⟩
 
-/-- PARTIAL (every sync that is not push-only; missing: push-only syncs, `stale_pushonly_witness`):
-the stale client is told to re-attach – the answer is `ErrEpochMismatch` (or, for a pack with a gap
-in its client sequences, `ErrInvalidClientSeq`); nothing is persisted for the client (no checkpoint,
-no status, no version-vector row), and the only thing `CreateChangeInfos` – called with an EMPTY
-list – can have written is the removed flag of a pack that carries it. -/
+/-- core of the two statements below: the sync is not push-only, or the epoch comparison precedes the
+push-only return (`cfg.stalePushOnlyRefused`) -/
+theorem stale_push_refused_core (s : Server) (c : ClientId) (d : DocId) (pack : Pack) (po nogc : Bool)
+    (hsw : s.cfg.stalePushOnlyRefused = true ∨ po = false)
+    (info : Client) (doc : Doc) (hc : s.findClient c = some info) (ha : info.activated = true)
+    (hst : info.statusOf d = some .attached) (hd : s.findDoc d = some doc)
+    (he : epochDiffers info d doc.epoch = true) :
+    ((step s (.pushpull c d pack po nogc)).2 = .error .epochMismatch ∨
+     (step s (.pushpull c d pack po nogc)).2 = .error .invalidClientSeq) ∧
+    (step s (.pushpull c d pack po nogc)).1.clients = s.clients ∧
+    (∃ doc', (step s (.pushpull c d pack po nogc)).1.findDoc d = some doc' ∧ doc'.vvRows = doc.vvRows ∧
+      doc'.log = doc.log ∧ (pack.isRemoved = false → doc'.removed = doc.removed)) := by
+  have hev : pushpullReq s c d pack po nogc =
+      finish (pushPull s (mkFlight c d info pack po .attached nogc doc.disablePresence)) := by
+    unfold pushpullReq
+    simp [Server.findActiveClient, hc, ha, Client.ensureAttached, hst, hd]
+  simp only [step]
+  rw [hev]
+  rcases pushPull_stale_refused (f := mkFlight c d info pack po .attached nogc doc.disablePresence)
+    (by simpa using hd) (by simpa using he) (by rcases hsw with h | h <;> simp [h]) (by simp) with h | h
+  · rw [h]
+    exact ⟨Or.inr rfl, rfl, doc, hd, rfl, rfl, fun _ => rfl⟩
+  · rw [h]
+    refine ⟨Or.inl rfl, rfl, pushedDoc doc (stripped (mkFlight c d info pack po .attached nogc doc.disablePresence)) [],
+      setDoc_findDoc_self _ _ _, by simp, by simp, ?_⟩
+    intro hr; simp [hr]
+
+/-- FULL statement – true of the model WITH the repair (`cfg.stalePushOnlyRefused = true`, i.e. after
+`fix-c10-stale-pushonly-epoch.patch`: the epoch comparison of `preparePack` precedes the push-only
+return), in every state, for EVERY sync of a client whose stored epoch differs from the document's –
+push-only or not, every pack, every option: the stale client is told to re-attach – the answer is
+`ErrEpochMismatch` (or, for a pack with a gap in its client sequences, `ErrInvalidClientSeq`); nothing
+is persisted for the client (no checkpoint, no status, no version-vector row), and the only thing
+`CreateChangeInfos` – called with an EMPTY list – can have written is the removed flag of a pack that
+carries it.  Before the repair this was FALSE for push-only syncs: `stale_pushonly_witness`. -/
+theorem stale_push_refused (s : Server) (hsw : s.cfg.stalePushOnlyRefused = true)
+    (c : ClientId) (d : DocId) (pack : Pack) (po nogc : Bool)
+    (info : Client) (doc : Doc) (hc : s.findClient c = some info) (ha : info.activated = true)
+    (hst : info.statusOf d = some .attached) (hd : s.findDoc d = some doc)
+    (he : epochDiffers info d doc.epoch = true) :
+    ((step s (.pushpull c d pack po nogc)).2 = .error .epochMismatch ∨
+     (step s (.pushpull c d pack po nogc)).2 = .error .invalidClientSeq) ∧
+    (step s (.pushpull c d pack po nogc)).1.clients = s.clients ∧
+    (∃ doc', (step s (.pushpull c d pack po nogc)).1.findDoc d = some doc' ∧ doc'.vvRows = doc.vvRows ∧
+      doc'.log = doc.log ∧ (pack.isRemoved = false → doc'.removed = doc.removed)) :=
+  stale_push_refused_core s c d pack po nogc (Or.inl hsw) info doc hc ha hst hd he
+
+/-- PARTIAL (any value of the switch, so also the tree before the repair): the same conclusion for
+every sync that is not push-only.  Missing for the full statement before the repair: exactly the
+push-only syncs (`stale_pushonly_witness`). -/
 theorem stale_push_refused_partial (s : Server) (c : ClientId) (d : DocId) (pack : Pack) (nogc : Bool)
     (info : Client) (doc : Doc) (hc : s.findClient c = some info) (ha : info.activated = true)
     (hst : info.statusOf d = some .attached) (hd : s.findDoc d = some doc)
@@ -133,24 +180,15 @@ theorem stale_push_refused_partial (s : Server) (c : ClientId) (d : DocId) (pack
      (step s (.pushpull c d pack false nogc)).2 = .error .invalidClientSeq) ∧
     (step s (.pushpull c d pack false nogc)).1.clients = s.clients ∧
     (∃ doc', (step s (.pushpull c d pack false nogc)).1.findDoc d = some doc' ∧ doc'.vvRows = doc.vvRows ∧
-      doc'.log = doc.log ∧ (pack.isRemoved = false → doc'.removed = doc.removed)) := by
-  have hev : pushpullReq s c d pack false nogc =
-      finish (pushPull s (mkFlight c d info pack false .attached nogc doc.disablePresence)) := by
-    unfold pushpullReq
-    simp [Server.findActiveClient, hc, ha, Client.ensureAttached, hst, hd]
-  simp only [step]
-  rw [hev]
-  rcases pushPull_stale_refused (f := mkFlight c d info pack false .attached nogc doc.disablePresence)
-    (by simpa using hd) (by simpa using he) (by simp) (by simp) with h | h
-  · rw [h]
-    exact ⟨Or.inr rfl, rfl, doc, hd, rfl, rfl, fun _ => rfl⟩
-  · rw [h]
-    refine ⟨Or.inl rfl, rfl, pushedDoc doc (stripped (mkFlight c d info pack false .attached nogc doc.disablePresence)) [],
-      setDoc_findDoc_self _ _ _, by simp, by simp, ?_⟩
-    intro hr; simp [hr]
+      doc'.log = doc.log ∧ (pack.isRemoved = false → doc'.removed = doc.removed)) :=
+  stale_push_refused_core s c d pack false nogc (Or.inr rfl) info doc hc ha hst hd he
 
-/-- The missing part, by evaluation (corpus/C10/compact-stale-pushonly.trace): after a forced
-compaction the holder syncs push-only with one unsent edit.  The answer is ok – not
+/-- the configuration before the repair (`V0`) and with it -/
+def beforeRepair : Config := { stalePushOnlyRefused := false }
+def withRepair : Config := { stalePushOnlyRefused := true }
+
+/-- BEFORE the repair (switch off), by evaluation (corpus/C10/compact-stale-pushonly.trace): after a
+forced compaction the holder syncs push-only with one unsent edit.  The answer is ok – not
 `ErrEpochMismatch` –, with checkpoint (2,2): its change (clientSeq 3) is neither stored nor
 acknowledged; the log still holds only the compacted change; and the client's old-generation version
 vector has been written into the NEW generation's version-vector rows. -/
@@ -159,7 +197,7 @@ theorem stale_pushonly_witness :
       { clientSeq := cs, lamport := lam, vv := [(c, lam)], actor := c, hasOps := true, hasPresence := false, tag := tag }
     let pres (c cs tag : Nat) : ChangeReq :=
       { clientSeq := cs, lamport := 0, vv := [], actor := c, hasOps := false, hasPresence := true, tag := tag }
-    let s := runEv tagSem (Server.init {}) [.req .activate,
+    let s := runEv tagSem (Server.init beforeRepair) [.req .activate,
       .req (.attach 0 0 { cp := ⟨0, 0⟩, changes := [pres 0 1 1, ops 0 2 1 2], vv := [(0, 1)] } false false),
       .compact 0 true]
     let r := step s (.pushpull 0 0 { cp := ⟨2, 2⟩, changes := [ops 0 3 2 3], vv := [(0, 2)] } true false)
@@ -167,6 +205,32 @@ theorem stale_pushonly_witness :
      r.1.docs.map (fun p => p.2.epoch), r.1.docs.map (fun p => p.2.log.map (fun x => x.actor)),
      r.1.docs.map (fun p => p.2.vvRows.map (fun x => x.1))) =
       (some (2, 2, 0), [1], [[initialActorNo]], [[0]]) := by
+  decide
+
+/-- WITH the repair (switch on), the same scenario: the push-only sync of the stale holder is refused
+with `epochMismatch`, nothing is stored, no version-vector row appears in the new generation and the
+client's stored checkpoint is untouched; the stale client can still detach (carrying the unsent edit,
+which is not stored), and it can be deactivated: the cluster detach behind `DeactivateClient` is
+push-only with status `detached` and passes through the detach/remove escape of `pullPack`. -/
+theorem stale_pushonly_fixed_witness :
+    let ops (c cs : Nat) (lam : Int) (tag : Nat) : ChangeReq :=
+      { clientSeq := cs, lamport := lam, vv := [(c, lam)], actor := c, hasOps := true, hasPresence := false, tag := tag }
+    let pres (c cs tag : Nat) : ChangeReq :=
+      { clientSeq := cs, lamport := 0, vv := [], actor := c, hasOps := false, hasPresence := true, tag := tag }
+    let s := runEv tagSem (Server.init withRepair) [.req .activate,
+      .req (.attach 0 0 { cp := ⟨0, 0⟩, changes := [pres 0 1 1, ops 0 2 1 2], vv := [(0, 1)] } false false),
+      .compact 0 true]
+    let r := step s (.pushpull 0 0 { cp := ⟨2, 2⟩, changes := [ops 0 3 2 3], vv := [(0, 2)] } true false)
+    let det := step r.1 (.detach 0 0 { cp := ⟨2, 2⟩, changes := [ops 0 3 2 3, pres 0 4 4], vv := [(0, 2)] })
+    ((match r.2 with | .error e => some e | .ok _ => none) == some .epochMismatch &&
+     r.1.docs.map (fun p => p.2.epoch) == [1] && r.1.docs.map (fun p => p.2.log.map (fun x => x.actor)) == [[initialActorNo]] &&
+     r.1.docs.map (fun p => p.2.vvRows.length) == [0] &&
+     (entryOf r.1 0 0).map (fun e => (e.serverSeq, e.clientSeq)) == some (2, 2) &&
+     det.2.toOption.isSome && (entryOf det.1 0 0).map (fun e => e.status) == some .detached &&
+     det.1.docs.map (fun p => p.2.log.length) == [1] &&
+     (step r.1 (.deactivate 0 [])).2.toOption.isSome &&
+     (entryOf (step r.1 (.deactivate 0 [])).1 0 0).map (fun e => e.status) == some .detached &&
+     (step r.1 (.deactivate 0 [])).1.docs.map (fun p => p.2.log.length) == [1]) = true := by
   decide
 
 /-- A Detach or Remove from a stale holder – the only thing such a client can still do – with
